@@ -41,6 +41,27 @@ CLAIMED = {
  "C13": dict(text="Lean theorems: consecutive run calls compose into the single-call run; resuming from a faithfully saved state equals continuing; the pinned Replace depended on set order (witness). Differential runs of the real code: same seed twice, in fresh interpreters under several PYTHONHASHSEED values, save at several step boundaries / resume in another process after RNG use / compare with the uninterrupted continuation, split run calls vs one call, process-history pairs through the shared default operators",
              note="partial: pickle fidelity, Mersenne-Twister state capture and hash randomisation are runtime facts checked by the differential runs, not theorems",
              tech="Lean 4 proof (composition of the run loop) + differential runs across interpreter processes", ref="§5 C13"),
+ "C10": dict(text="Lean theorems for all solution sets, lengths and flipped subsets of objectives: Pareto and epsilon-box comparisons, Pareto archives, non-dominated fronts/ranks and (exact arithmetic, repaired code) the hypervolume are unchanged when a maximised objective is replaced by the minimised negation; generic 'commutes with any comparison-preserving relabelling' lemmas. Metamorphic correspondence on the real code with every subset of objectives flipped (comparisons, archives, sorting, crowding, every indicator), model run on both sides of each pair",
+             note="partial: GD/IGD/spacing/epsilon-indicator flip invariance and whole-run invariance are established on the real code by the metamorphic check (exact equality under exact-representable negation), not by a theorem; float normalisation 1-n is exact only up to rounding and compared with a stated tolerance",
+             tech="Lean 4 proof (induction over objectives / generic relabelling lemmas) + metamorphic correspondence", ref="§5 C10"),
+ "C12": dict(text="Lean theorems: chunking partitions the job list in order for every chunk size; map/submit/apply evaluators return results in job order for every completion order; the MPI pool as a labelled transition system: for every schedule, every number of workers >= 1 and every number of tasks, when the master returns results = map f tasks, no reachable non-final configuration is stuck, no worker runs a task before it has the function; experiment results filed per (algorithm, problem) in job order. Correspondence: the real MPIPool on a simulated communicator under a controlled scheduler, every action replayed through the Lean LTS, small configurations enumerated over ALL schedules; real thread/process pools with reversed completion order",
+             note="partial: real mpi4py / OS scheduling is replaced by a simulated communicator with MPI's non-overtaking semantics (assumption); process-pool pickling is exercised, not proved",
+             tech="Lean 4 proof (LTS invariant, induction over schedules) + schedule replay / exhaustive schedule enumeration", ref="§5 C12"),
+ "C15": dict(text="Lean theorem calcInternal_eq_hvRec for every dimension, every point set and every array state: the imperative slicing algorithm (in-place swaps, filter_nondominated, recursion over the last objective) computes the slicing (Fubini) specification of the dominated volume; the specification is >= 0, <= 1 on the unit cube, permutation/duplicate/dominated-point invariant and monotone under adding solutions. Float wire bit-exact on arbitrary doubles and exact rational wire on dyadic lattices against the real Hypervolume; independent inclusion-exclusion oracle in Fractions",
+             note="float rounding of the real code relative to the exact volume is bounded only by the oracle's stated tolerance (not a theorem); normalisation uses the reference set's bounds as in the code",
+             tech="Lean 4 proof (induction over dimension and array prefix) + bit-exact/exact correspondence + exact oracle", ref="§5 C15"),
+ "C16": dict(text="Lean theorems over ordered fields with sqrt/pow parameters: GD, IGD, spacing >= 0; GD and additive epsilon of a set against itself are 0; no feasible member gives +infinity; making members worse in their declared directions never decreases the additive epsilon; normalisation of flipped objectives. Float wire bit-exact (CPython's compensated sum mirrored in the model) for GD/IGD/epsilon/spacing/hypervolume against the real indicator classes; exact-arithmetic textbook oracle",
+             note="partial: 'equals the textbook value' is exact for the model over exact arithmetic and within 1e-9 relative for the float code (oracle), sqrt/pow are parameters",
+             tech="Lean 4 proof (list inductions over min/max folds) + bit-exact correspondence + exact oracle", ref="§5 C16"),
+ "C18": dict(text="Lean theorems over any ordered field with trig functions satisfying cos^2+sin^2=1 (instantiated at the reals): for every number of objectives and variables DTLZ2-4 satisfy sum f^2 = (1+g)^2 >= 1, DTLZ1 sum f = (1+g)/2 >= 1/2, g >= 0, ZDT g >= 1 and the ZDT2-shaped front bound, samplers with optimal distance variables satisfy the front equation, points on one front simplex/sphere/ellipsoid are mutually non-dominated, the reference functions return as many values as declared, and FixedLengthArray slice assignment stores scalars iff the value has the slice's length. Correspondence: all 43 classes x supported sizes x in-bounds points incl. corners/boundaries: arity and finiteness, published front inequalities, ZDT1-6 and DTLZ1-4,7 against the Lean reference implementations (written from the papers), DTLZ/WFG samplers (bounds, front equation, non-dominance), FixedLengthArray against its model",
+             note="partial: the theorems are about the reference implementations over exact reals; the float code is tied to them within 1e-9 relative; WFG/UF/CF have no Lean reference (arity, finiteness and front inequalities only). DTLZ7 and WFG2 samplers are recorded known findings",
+             tech="Lean 4 proof (telescoping inductions over the objective index) + reference-implementation correspondence", ref="§5 C18"),
+ "C19": dict(text="Lean theorems about the model of the JSON decoder (document-order object_hook with threaded decoder state) and encoder: plain values pass through; a saved solution decodes to the same variables/objectives/constraints with the violation recomputed for the decoder's problem; round trips of lists/archives with supplied or inferred problem keep values and order; a file written from a live algorithm restores shape, directions and constraints (repaired hook), and the pinned hook provably lost them. Correspondence: real files (lists, archives, algorithms; all variable types; adversarial doubles) loaded by the real code and decoded by the model, compared bit for bit",
+             note="partial: text <-> double conversion (repr/float, json module) is CPython's and only exercised; non-JSON-native variable elements are out of scope of the property",
+             tech="Lean 4 proof (mutual structural induction over JSON values) + decoded-structure correspondence", ref="§5 C19"),
+ "C20": dict(text="Lean theorems: over any linearly ordered field whatever lsolve returns satisfies A x = b exactly, a matrix with a non-trivial kernel is reported singular, every pivot used exceeded EPSILON; for tql2: the sub-diagonal scan returns the first negligible entry at or after the current row (the pinned scan provably could skip one), deflation soundness, plane rotations preserve orthonormality. Float wire bit-exact (solutions, eigenvalues, eigenvectors, error kinds) for lsolve/tred2/tql2 against the real code; exact rational wire for lsolve; residual oracle",
+             note="partial: convergence and accuracy of the floating-point QL iteration (eigenpair residuals) are checked by the oracle with stated tolerances, not proved",
+             tech="Lean 4 proof (induction over elimination steps; algebraic rotation lemma) + bit-exact/exact correspondence", ref="§5 C20"),
 }
 PENDING = {}
 def main():
